@@ -94,6 +94,33 @@ def run(c):
             add("plain", b0 + one * 6)
             if thorough or rng.random() < 0.2:
                 add("plain", b0 + one * 64 + max(es, key=len))
+    # contents, not framing: the first content octet of every optional element takes many values (a decoder that inspects
+    # contents - a code, a type, a sub-length - branches on it), and variable-length elements are filled with text that is
+    # dangerous when it reaches a formatter (printf directives with huge widths), after a valid mandatory part and alone
+    DICT = [b"%999999[1]d", b"%[1]999999x", b"%999999d", b"%[1]*d%s%n%v", b"%!s(MISSING)%9999999x", b"%s%s%s%s%s%s%s%s", b"%+999999v"]
+    for m, (b0, singles) in sorted(singles_by_message(gen).items()):
+        slot = {}
+        for sl in TBL[m]["slots"]:
+            if not sl["mand"]: slot.setdefault(sl["iei"], sl)
+        byiei = {}
+        for e in singles: byiei.setdefault(e[0] if e[0] < 128 else e[0] // 16, []).append(e)
+        for iei, es in sorted(byiei.items()):
+            sl = slot.get(iei)
+            if sl is None or sl["half"]: continue
+            one = max(es, key=len); off = 1 + sl["lsz"]
+            if len(one) <= off: continue
+            vals = range(256) if thorough else list(range(32)) + [0x2E, 0x7E, 0x7F, 0x80, 0xC0, 0xFE, 0xFF]
+            for v in vals:
+                if v != one[off]: add("plain", b0 + one[:off] + [v] + one[off + 1:])
+            if sl["lsz"] > 0 and sl["data"] == "buf" and sl["max"] >= 24:
+                for d in DICT:
+                    n = min(sl["max"], 120); body = list((d * (n // len(d) + 1))[:n])
+                    add("plain", b0 + [one[0]] + ([n] if sl["lsz"] == 1 else [n >> 8, n & 255]) + body)
+                    # the same text as length-prefixed labels (names, lists of strings) ended by an impossible length octet
+                    lab = [len(d)] + list(d); k = max(1, (min(sl["max"], 100) - 1) // len(lab))
+                    for end in ([0xC0], [0xFF, 0x00]):
+                        body = (lab * k + end)[:sl["max"]]
+                        add("plain", b0 + [one[0]] + ([len(body)] if sl["lsz"] == 1 else [len(body) >> 8, len(body) & 255]) + body)
     # self-similar inputs: a message nested again and again inside its own container element (must stay linear)
     for t in TABLES:
         if t["family"] == "ENV": continue
